@@ -16,6 +16,40 @@ func findSlotStmtIndex(stmts []Statement, slotName string) int {
 	return -1
 }
 
+// findSlotStmt finds the slot placeholder with the given name among the
+// statements and, unlike findSlotStmtIndex, inside the blocks nested in them
+// (a placeholder may sit inside an @if or a loop of the component)
+func findSlotStmt(stmts []Statement, slotName string) *SlotStmt {
+	for _, stmt := range stmts {
+		switch stmt := stmt.(type) {
+		case *SlotStmt:
+			if stmt.Name.Value == slotName {
+				return stmt
+			}
+		case *IfStmt:
+			if slot := findSlotStmt(stmt.Stmts(), slotName); slot != nil {
+				return slot
+			}
+		case *ForStmt:
+			if slot := findSlotStmt(stmt.Stmts(), slotName); slot != nil {
+				return slot
+			}
+		case *EachStmt:
+			if slot := findSlotStmt(stmt.Stmts(), slotName); slot != nil {
+				return slot
+			}
+
+			if stmt.Alternative != nil {
+				if slot := findSlotStmt(stmt.Alternative.Statements, slotName); slot != nil {
+					return slot
+				}
+			}
+		}
+	}
+
+	return nil
+}
+
 func findDuplicateSlot(slots []*SlotStmt) (string, int) {
 	counts := make(map[string]int)
 
